@@ -219,3 +219,62 @@ def run(ctx) -> None:  # noqa: F811
     ctx.require(n >= 3, f"R-RECON-ROUNDTRIP judged only {n} (class, parameter) pairs")
     _inner_run_c01c(ctx)
 
+
+
+# =============================================================================================
+# ---- added after the mutation sweep (round 4): the block bookkeeping that only one of the two modes executes
+_inner_run_c01d = run
+
+
+def run(ctx) -> None:  # noqa: F811
+    from ..model import AnalysisError
+    from ..rules import argindex, blockflow
+    from . import c19
+
+    ctx.rule("R-ARGINDEX", "(shared with C19) " + argindex.__doc__.split("\n\n", 1)[1] + "  ensemble_blocks is executed "
+             "by the lazy mode only and generate_blocks by the eager block loops only: a slip in either index "
+             "bookkeeping changes one mode and not the other")
+    ctx.rule("R-BLOCKFLOW", "(shared with C19) " + blockflow.__doc__.split("\n\n", 1)[1] + "  The partitioning functions "
+             "have a lazy and an eager arm (or are used by one mode only); a block that is built but not stored, "
+             "stored at the wrong index or not forwarded in one arm makes that mode differ from the other")
+    pending = []
+    try:
+        argindex.check(ctx, ctx.repo.method("abtem.core.ensemble", "Ensemble", "ensemble_blocks"),
+                       ctx.repo.method("abtem.core.ensemble", "Ensemble", "generate_blocks"))
+    except AnalysisError as e:
+        pending.append(e)
+    try:
+        argindex.check_multi_output(ctx, ctx.repo.function("abtem.array", "multi_output_blockwise"))
+    except AnalysisError as e:
+        pending.append(e)
+    n = 0
+    for m, c, fn in c19.BLOCKFLOW_TARGETS:
+        try:
+            n += blockflow.check(ctx, ctx.repo.method(m, c, fn))
+        except AnalysisError as e:
+            pending.append(e)
+    _inner_run_c01d(ctx)
+    if pending:
+        raise pending[0]
+    ctx.require(n >= 30, f"R-BLOCKFLOW examined only {n} instances")
+
+
+# ---- round 4, continued: the (array block, metadata) pair of ArrayObject._partition_args in both arms
+_inner_run_c01e = run
+
+
+def run(ctx) -> None:  # noqa: F811
+    from ..model import AnalysisError
+    from ..rules import blockpair
+
+    ctx.rule("R-BLOCKPAIR", blockpair.__doc__.split("\n\n", 1)[1])
+    err = None
+    try:
+        n = blockpair.check(ctx, ctx.repo.method("abtem.array", "ArrayObject", "_partition_args"),
+                            ctx.repo.method("abtem.array", "ArrayObject", "_partition_ensemble_axes_metadata"))
+        ctx.require(n >= 3, f"R-BLOCKPAIR examined only {n} instances")
+    except AnalysisError as e:
+        err = e
+    _inner_run_c01e(ctx)
+    if err is not None:
+        raise err
